@@ -1,4 +1,4 @@
-import os, sys
+import os, sys, random, json
 sys.path.insert(0, os.path.join(os.path.dirname(os.path.abspath(__file__)), '..', 'lib'))
 import vlib, flow, gen_trans
 
@@ -9,20 +9,83 @@ gen_trans.register('mm_vmm.json')   # Go -> Gallina translation of EarlyReserveR
 TEMP = 0xffffff7ffffff000
 M64 = (1 << 64) - 1
 
+# ---- kernel/goruntime/bootstrap.go: sysReserve / sysMap / sysAlloc (second model Goruntime/Boot.v, Props/C07_goruntime.v) ----
+HRT = os.path.join(vlib.ROOT, 'harness/kernel/goruntime')
+RT_HARNESS = [os.path.join(HRT, 'zz_verif_c07rt_test.go')]
+RT_TEST = 'TestVerifC07Rt$'
+
+
+def rt_overlay():
+    """The package does not link under `go test` (its linknames into the Go runtime no longer resolve): the linkname
+    declaration file is REPLACED by plain stubs; an add-only shim in package vmm exposes the reservation cursor."""
+    return {os.path.join(vlib.REPO, 'kernel/goruntime/bootstrap_go18+.go'): os.path.join(HRT, 'bootstrap_go18_shim.go'),
+            os.path.join(vlib.REPO, 'kernel/mm/vmm/zz_verif_rt_shim.go'): os.path.join(H, 'zz_verif_rt_shim.go')}
+
+
+def rt_parse(nums):
+    """-> (start, zero frame, stat, [op tuples]) ; op = ('reserve', size) | ('map', addr, size, reserved, failcode) | ('alloc', size, failcode, [entries])"""
+    ops, i = [], 3
+    while i < len(nums):
+        if nums[i] == 0 and i + 1 < len(nums):
+            ops.append(('reserve', nums[i + 1])); i += 2
+        elif nums[i] == 1 and i + 4 < len(nums):
+            ops.append(('map',) + tuple(nums[i + 1:i + 5])); i += 5
+        elif nums[i] == 2 and i + 3 < len(nums):
+            n = nums[i + 3]
+            ops.append(('alloc', nums[i + 1], nums[i + 2], list(nums[i + 4:i + 4 + n]))); i += 4 + n
+        else:
+            break
+    return (nums[0] if nums else 0, nums[1] if len(nums) > 1 else 0, nums[2] if len(nums) > 2 else 0, ops)
+
+
+def rt_build(start, zf, stat, ops):
+    nums = [start, zf, stat]
+    for o in ops:
+        if o[0] == 'reserve':
+            nums += [0, o[1]]
+        elif o[0] == 'map':
+            nums += [1] + list(o[1:5])
+        else:
+            nums += [2, o[1], o[2], len(o[3])] + list(o[3])
+    return nums
+
+
+def rt_explain(nums):
+    start, zf, stat, ops = rt_parse(nums)
+    s = ['cursor=%#x zeroFrame=%#x stat=%#x' % (start or TEMP, zf, stat)]
+    for o in ops:
+        if o[0] == 'reserve':
+            s.append('sysReserve(%#x)' % o[1])
+        elif o[0] == 'map':
+            s.append('sysMap(addr=%#x, size=%#x, reserved=%s%s)' % (o[1], o[2], 'true' if o[3] else 'false', ', mapFn fails at call %d' % (o[4] - 1) if o[4] else ''))
+        else:
+            fr = ['ERR' if e == 0 else '%#x' % (e - 1) for e in o[3]]
+            s.append('sysAlloc(%#x%s; AllocFrame answers [%s] then ERR)' % (o[1], ', mapFn fails at call %d' % (o[2] - 1) if o[2] else '', ' '.join(fr)))
+    return ' ; '.join(s)
+
 
 class C07(flow.Spec):
     prop = 'C07'
-    props_files = ['theories/Props/C07.v', 'theories/Props/C07_examples.v']
-    model_targets = ['theories/Vmm/Region.vo']
+    props_files = ['theories/Props/C07.v', 'theories/Props/C07_examples.v',
+                   'theories/Props/C07_goruntime.v', 'theories/Props/C07_goruntime_examples.v']
+    model_targets = ['theories/Vmm/Region.vo', 'theories/Goruntime/Boot.vo']
     pkg = 'mm/vmm'
     harness = [os.path.join(H, 'zz_verif_c07_test.go')]
     test = 'TestVerifC07$'
     rule = ('histories of EarlyReserveRegion / MapRegion / IdentityMapRegion calls from a page-aligned cursor; sizes from '
             '{0,1,4095,4096,4097,random,remaining-4096,remaining,remaining+1,2^63,2^64-4096,2^64-4095,2^64-1}; '
-            'non-trivial = at least one request succeeds and one is near a boundary; distinct = distinct op lists')
+            'non-trivial = at least one request succeeds and one is near a boundary; distinct = distinct op lists. '
+            'Second correspondence (additional_correspondences.extra_info): histories of goruntime.sysReserve / sysMap / sysAlloc on the real '
+            'EarlyReserveRegion, same size classes plus sizes in the last page before 2^64, unaligned / near-top sysMap addresses, '
+            'mapFn failure at the k-th page, allocator failure at the k-th frame, exhausted allocator')
     assumptions = ['gen/gotrans (go/ast -> Gallina for the integer subset of Go) regenerates EarlyReserveRegion, mm.PageFromAddress, mm.FrameFromAddress and the pageTableEntry helpers from the source; C07_model_is_translation proves the hand model equal to that term',
                    'mapFn seam stands for Map (modelled in C04); sizes are uintptr (< 2^64)',
-                   'cursor starts page-aligned at or below tempMappingAddr (the kernel initialises it to tempMappingAddr)']
+                   'cursor starts page-aligned at or below tempMappingAddr (the kernel initialises it to tempMappingAddr)',
+                   'kernel/goruntime does not link under go test (linknames into the Go runtime that no longer resolve): the harness run REPLACES the '
+                   'declaration file bootstrap_go18+.go by plain stubs (harness/kernel/goruntime/bootstrap_go18_shim.go: mSysStatInc adds to *stat, '
+                   'the runtime init entry points do nothing); bootstrap.go itself is the real file; an add-only shim in package vmm exposes the '
+                   'reservation cursor; mapFn / memsetFn / the frame allocator are recording mocks (Map itself: C04/C06), earlyReserveRegionFn is the '
+                   'real vmm.EarlyReserveRegion']
 
     def gen_cases(self, rng, tier):
         n = {'quick': 600, 'thorough': 20000, 'search': 3000}[tier]
@@ -68,6 +131,199 @@ class C07(flow.Spec):
             out.append((nums, 'hist'))
         return out
 
+    # ---- sysReserve / sysMap / sysAlloc of kernel/goruntime/bootstrap.go: second model + harness in package goruntime ----
+    def rt_cases(self, rng, tier):
+        n = {'quick': 500, 'thorough': 15000, 'search': 2000}[tier]
+        return [self.rt_one(rng) for _ in range(n)]
+
+    def rt_one(self, rng):
+        if rng.random() < 0.5:
+            start, cur = 0, TEMP
+        else:
+            start = rng.choice([4096, 8192, 3 * 4096, 40 * 4096, 1 << 20, 1 << 32, rng.randrange(1, 1 << 24) * 4096, TEMP - 4096, TEMP])
+            cur = start
+        top = cur
+        zf = rng.choice([0, 1, 5, rng.randrange(0, 1 << 36), (1 << 40) - 1])
+        stat = rng.choice([0, 0, rng.randrange(0, 1 << 40), M64 - 4095, M64, M64 - rng.randrange(0, 1 << 16), rng.randrange(0, M64 + 1)])
+        ops = []
+
+        def pick_size():
+            k = rng.randrange(2, 12)
+            if rng.random() < 0.55:
+                return rng.choice([0, 1, 4095, 4096, 4097, k * 4096 - 1, k * 4096, k * 4096 + 1, rng.randrange(0, 1 << 16), rng.randrange(0, 40 * 4096)])
+            return rng.choice([
+                rng.randrange(0, 1 << 40), max(cur - 4096, 0), max(cur - 1, 0), cur, min(cur + 1, M64), min(cur + 4096, M64),
+                1 << 63, M64 - 8191, M64 - 4096, M64 - 4095, M64 - 4094, M64 - 1, M64, rng.randrange(M64 - 4095, M64 + 1),
+                rng.randrange(M64 - 8192, M64 + 1), rng.randrange(0, M64 + 1)])
+
+        for _ in range(rng.randrange(1, 9)):
+            r = rng.random()
+            size = pick_size()
+            pages = (size + 4095) >> 12
+            need = pages << 12
+            if r < 0.33:
+                ops.append(('reserve', size))
+                if need <= cur:
+                    cur -= need
+            elif r < 0.63:
+                m = rng.random()
+                if m < 0.65 and top > cur:
+                    # an address inside what has been reserved so far, page aligned or not
+                    addr = cur + rng.randrange(0, (top - cur) >> 12) * 4096 + rng.choice([0, 0, 0, 1, 4095, 2048, rng.randrange(4096)])
+                elif m < 0.8:
+                    addr = (cur + rng.choice([0, 1, 4095, 4096])) & M64
+                else:
+                    addr = rng.choice([0, 1, 4095, 4096, M64, M64 - 1, M64 - 4094, M64 - 4095, M64 - 4096, M64 - 8191, rng.randrange(M64 - 8192, M64 + 1),
+                                       rng.randrange(0, M64 + 1), 1 << 63, TEMP, TEMP + 1])
+                if m < 0.65 and rng.random() < 0.7:
+                    size = rng.choice([0, 1, 4095, 4096, 4097, rng.randrange(0, 12 * 4096), max(top - addr, 0), rng.randrange(2, 12) * 4096 + rng.choice([-1, 0, 1])])
+                    pages = (size + 4095) >> 12
+                resv = rng.choice([1, 1, 1, 1, 1, 1, 1, 1, 0, rng.randrange(2, M64 + 1)])
+                if pages > 40:
+                    fail = rng.randrange(1, 6)
+                    if size > M64 - 4095 and rng.random() < 0.6:
+                        fail = 0      # the round-up wraps: no mapping call can be made whatever the code does with it
+                else:
+                    fail = rng.choice([0, 0, 0, 0, 1, 2, pages, pages + 1, rng.randrange(1, pages + 2)]) if pages else rng.choice([0, 0, 1])
+                ops.append(('map', addr, size, resv, fail))
+            else:
+                fits = need <= cur
+                if pages > 40:
+                    n = rng.randrange(0, 7)
+                    fail = rng.choice([0, 0, rng.randrange(1, 8)])
+                else:
+                    n = rng.choice([pages, pages, pages, pages + 2, max(pages - 1, 0), rng.randrange(0, pages + 1)])
+                    fail = rng.choice([0, 0, 0, 0, rng.randrange(1, pages + 2), pages, pages + 1]) if pages else rng.choice([0, 1])
+                base = rng.choice([0, 1, 0x100, rng.randrange(0, 1 << 36), (1 << 40) - 3, M64 - 1 - n])
+                es = []
+                for i in range(n):
+                    f = base + i if rng.random() < 0.8 else rng.choice([zf, 0, M64 - 1, rng.randrange(0, 1 << 52)])
+                    es.append(min(f, M64 - 1) + 1)
+                if es and rng.random() < 0.25:
+                    es[rng.randrange(len(es))] = 0
+                ops.append(('alloc', size, fail, es))
+                if fits:
+                    cur -= need
+        return rt_build(start, zf, stat, ops)
+
+    def rt_run(self, wd, cases, tag, model=True):
+        cpath = os.path.join(wd, 'cases_rt_%s.txt' % tag)
+        gpath = os.path.join(wd, 'go_rt_%s.out' % tag)
+        mpath = os.path.join(wd, 'model_rt_%s.out' % tag)
+        vlib.write_cases(cpath, cases)
+        rc, out, secs = vlib.run_go(wd, 'kernel', 'goruntime', RT_HARNESS, RT_TEST, cases_path=cpath, out_path=gpath, timeout=600,
+                                    extra_overlay=rt_overlay())
+        gobs, mons, info = vlib.parse_out(gpath)
+        mobs, merr, msecs = {}, None, 0.0
+        if model:
+            try:
+                msecs = vlib.run_model('C07rt', cpath, mpath)
+                mobs, _, _ = vlib.parse_out(mpath)
+            except Exception as ex:
+                merr = str(ex)[-600:]
+        return dict(rc=rc, log=out, secs=secs, obs=gobs, mons=mons, info=info, mobs=mobs, merr=merr, msecs=msecs)
+
+    def rt_shrink(self, wd, nums, sig):
+        """greedy: drop one call at a time, then empty the allocator script / failure injection, while the monitor still reports [sig]"""
+        cur = list(nums)
+        for _ in range(12):
+            start, zf, stat, ops = rt_parse(cur)
+            cands = [rt_build(start, zf, stat, ops[:j] + ops[j + 1:]) for j in range(len(ops))] if len(ops) > 1 else []
+            cands += [rt_build(start, zf, 0, ops)] if stat else []
+            cands = [c for c in cands if c != cur]
+            if not cands:
+                break
+            r = self.rt_run(wd, cands, 'shrink', model=False)
+            hit = sorted(set(i for (i, s, m) in r['mons'] if s == sig), key=lambda i: len(cands[i]))
+            if not hit:
+                break
+            cur = cands[hit[0]]
+        return cur
+
+    def extra_checks(self, ctx):
+        res = []
+        wd = ctx['wd']
+        known = vlib.known_findings(self.prop)
+        rng = random.Random(ctx['seed'] * 13 + 7)
+        cases = []
+        cdir = os.path.join(vlib.ROOT, 'corpus', 'C07rt')
+        for fn in sorted(os.listdir(cdir)) if os.path.isdir(cdir) else []:
+            if fn.endswith('.case'):
+                for line in open(os.path.join(cdir, fn)):
+                    line = line.split('#')[0].strip()
+                    if line:
+                        cases.append([int(x, 16) for x in line.split()])
+        n_corpus = len(cases)
+        cases += self.rt_cases(rng, ctx['tier'])
+        r = self.rt_run(wd, cases, 'main')
+        mons, searched = list(r['mons']), 0
+        pool = cases
+        bad = [i for i in range(len(cases)) if r['obs'].get(i) != r['mobs'].get(i)] if not r['merr'] else []
+        if r['rc'] != 0 and not mons:
+            res.append(('c07:rt-harness-died', 'goruntime harness did not complete: ' + r['log'][-800:], None))
+        if not [m for m in mons if m[1] not in known] and (bad or r['merr'] or ctx.get('proof_broken')):
+            # the tie is broken (model mismatch, broken proof or source pin) and no monitor failed: extended search
+            for k in range(3 if ctx['tier'] == 'quick' else 8):
+                sc = self.rt_cases(random.Random(ctx['seed'] * 7919 + k + 31), 'search')
+                searched += len(sc)
+                r2 = self.rt_run(wd, sc, 'search', model=False)
+                if [m for m in r2['mons'] if m[1] not in known]:
+                    mons, pool = list(r2['mons']), sc
+                    break
+        by_sig = {}
+        for (i, sig, msg) in mons:
+            if i < len(pool):
+                by_sig.setdefault(sig, []).append((i, msg))
+        for sig, lst in sorted(by_sig.items()):
+            i, msg = min(lst, key=lambda t: len(pool[t[0]]))
+            small = pool[i]
+            if sig not in known:
+                try:
+                    small = self.rt_shrink(wd, small, sig)
+                except Exception as ex:
+                    vlib.log('rt shrink failed', ex)
+            res.append((sig, msg, dict(kind='goruntime-history', rt_case=['%x' % v for v in small], explain=rt_explain(small),
+                                       failing_cases_this_run=len(lst), original_case=['%x' % v for v in pool[i]],
+                                       replay='bin/check C07 --replay <this file>')))
+        if r['merr']:
+            res.append(('c07:rt-model-failed', r['merr'], None))
+        elif bad and not by_sig:
+            i = min(bad, key=lambda k: len(cases[k]))
+            res.append(('c07:rt-model-mismatch', 'Goruntime/Boot.v and bootstrap.go differ on %d of %d histories (no monitor failure in %d further histories), smallest: %s'
+                        % (len(bad), len(cases), searched, rt_explain(cases[i])),
+                        dict(kind='goruntime-history', rt_case=['%x' % v for v in cases[i]], explain=rt_explain(cases[i]), no_failing_input=True,
+                             implementation=r['obs'].get(i), model=r['mobs'].get(i),
+                             correspondence='Goruntime/Boot.v run_case vs sysReserve/sysMap/sysAlloc (TestVerifC07Rt)', replay='bin/check C07 --replay <this file>')))
+        # ---- evidence ----
+        dist = dict(sysReserve=0, sysMap=0, sysAlloc=0, size_in_last_page_before_2_64=0, size_beyond_remaining_space=0, unaligned_sysMap_address=0,
+                    sysMap_address_rounds_past_2_64=0, mapFn_failure_injected=0, allocator_failure_scripted=0, sysMap_not_reserved=0)
+        nontrivial = 0
+        for c in cases:
+            start, zf, stat, ops = rt_parse(c)
+            for o in ops:
+                size = o[2] if o[0] == 'map' else o[1]
+                dist[{'reserve': 'sysReserve', 'map': 'sysMap', 'alloc': 'sysAlloc'}[o[0]]] += 1
+                dist['size_in_last_page_before_2_64'] += size > M64 - 4095
+                dist['size_beyond_remaining_space'] += o[0] != 'map' and size > (start or TEMP)
+                if o[0] == 'map':
+                    dist['unaligned_sysMap_address'] += o[1] % 4096 != 0
+                    dist['sysMap_address_rounds_past_2_64'] += o[1] > M64 - 4095
+                    dist['mapFn_failure_injected'] += o[4] != 0
+                    dist['sysMap_not_reserved'] += o[3] == 0
+                if o[0] == 'alloc':
+                    dist['mapFn_failure_injected'] += o[2] != 0
+                    dist['allocator_failure_scripted'] += 0 in o[3]
+        for i, c in enumerate(cases):
+            o = r['obs'].get(i) or []
+            nontrivial += len(o) > 8
+        self.extra_info = dict(model='coq/theories/Goruntime/Boot.v (extract/C07rt.v)', harness='harness/kernel/goruntime/zz_verif_c07rt_test.go',
+                               overlay_replaces='kernel/goruntime/bootstrap_go18+.go -> harness/kernel/goruntime/bootstrap_go18_shim.go',
+                               cases=len(cases), corpus_cases=n_corpus, searched=searched, mismatches=len(bad), nontrivial=nontrivial, distribution=dist,
+                               impl_seconds=round(r['secs'], 2), model_seconds=round(r['msecs'], 2),
+                               monitor_failures={k: len(v) for k, v in by_sig.items()},
+                               observed={k[6:]: int(v[0]) for k, v in sorted(r['info'].items()) if k.startswith('calls:')})
+        return res
+
     def explain(self, nums):
         if not nums:
             return ''
@@ -96,5 +352,32 @@ class C07(flow.Spec):
             yield [nums[0]] + [x for k, o in enumerate(ops) if k != j for x in o]
 
 
+def rt_replay(obj):
+    """bin/check C07 --replay <file> for a recorded goruntime history (key rt_case)"""
+    nums = [int(x, 16) for x in obj['rt_case']]
+    spec = C07()
+    wd = vlib.ensure_dir(os.path.join(vlib.WORK, 'C07', 'replay'))
+    vlib.regen()
+    vlib.coq_build(['theories/Goruntime/Boot.vo'])
+    r = spec.rt_run(wd, [nums], 'replay')
+    print('case       :', ' '.join('%x' % v for v in nums))
+    print('explain    :', rt_explain(nums))
+    print('impl obs   :', ' '.join(r['obs'].get(0, ['<none>'])))
+    for (i, s, m) in r['mons']:
+        print('impl MONITOR-FAIL:', s, m)
+    if r['rc'] != 0:
+        print(r['log'][-2000:])
+    print('model obs  :', ' '.join(r['mobs'].get(0, ['<none>'])) if not r['merr'] else r['merr'])
+    return 1 if r['mons'] else 0
+
+
 if __name__ == '__main__':
+    if '--replay' in sys.argv:
+        try:
+            o = json.load(open(sys.argv[sys.argv.index('--replay') + 1]))
+            o = o if 'rt_case' in o else (o.get('detail') or {})
+        except Exception:
+            o = {}
+        if 'rt_case' in o:
+            sys.exit(rt_replay(o))
     sys.exit(flow.standard_check(C07(), sys.argv[1:]))
